@@ -76,7 +76,7 @@ func c06Directed(c *rt.C, point int, mem string) {
 		c.Inconclusive("quiescence probe did not settle")
 		return
 	}
-	w := Walk(db.N.VerifStore(), nitroInsCmp(false), nitro.ItemSize, 1000)
+	w := Walk(db.N.VerifStore(), db.InsCmp(), nitro.ItemSize, 1000)
 	if w.Level0Linked != live {
 		c.Violate("node-count", fmt.Sprintf("directed schedule (loser of a contended delete parked at hook %d while the winner deleted 4 more keys): all snapshots closed, GC() ran at quiescence, %d keys live but %d nodes physically present: the winner's garbage list was cut", point, live, w.Level0Linked), witness)
 	}
